@@ -51,7 +51,17 @@ MPS_DEFS = {
     "c05mpy": [("syn1", 12, AV), ("bbb", 12, AVT), ("syn2", 6, AV)],
     "c05mpl": [("lymix", 10, AVT), ("lyabr", 12, AVT), ("lytri", 8, AVT)],
     "c05mpe": [("lyenc", 10, AVT), ("bbb", 10, AVT)],
+    # period durations and offsets that are not whole seconds (30000/1001 fps style, half a second,
+    # sub-millisecond, nearly the whole stream) - the loop duration is then not exactly representable
+    # as a float
+    "c05mpf": [("bbb", 12.012, AVT), ("tears", 8.008, AV)],
+    "c05mpu": [("bbb", 10.000001, AV), ("tears", 7.999999, AV), ("bbb", 4.1, AVT)],
+    "c05mph": [("bbb", 8.5, AVT), ("bbb", 4.004, AV)],
+    "c05mpo": [("bbb", 8.008, AVT), ("tears", 16.016, AV), ("bbb", 31.3, AV)],
 }
+# start offset (seconds) of each Period inside its stream, where it is not 0
+MPS_OFFSETS = {"c05mph": [4, 12.012], "c05mpo": [4.004, 8, 8]}
+FRACTIONAL_MPS = ["c05mpf", "c05mpu", "c05mph", "c05mpo"]
 ENC_STREAMS = {"bbb", "lyenc"}
 # Streams with varied *track layouts*, built from re-labelled fixture files (the stored
 # representation JSON is rewritten: id, file name, track id, codec string; the media bytes are the
@@ -145,7 +155,8 @@ def _add_mps(app):
             for idx, (directory, secs, ctypes) in enumerate(periods):
                 stream = m.Stream.get(directory=directory)
                 prd = m.Period(pid=f"p{idx}", parent=mps, ordering=idx + 1, stream=stream,
-                               start=datetime.timedelta(seconds=0), duration=datetime.timedelta(seconds=secs))
+                               start=datetime.timedelta(seconds=MPS_OFFSETS.get(name, [0] * len(periods))[idx]),
+                               duration=datetime.timedelta(seconds=secs))
                 m.db.session.add(prd)
                 seen = set()
                 for mf in m.MediaFile.search(stream=stream):
@@ -259,7 +270,8 @@ def gen_options(rng, mft: dict, mode: str, stream: str, kind: str) -> list:
             add("time", ["direct", "head", "http-ntp", "iso", "ntp", "sntp", "xsd"], .5)
             add("drift", ["0", "3", "10", "-7"], .2)
         # (a long buffer with a SegmentTimeline costs seconds per request: every entry is rendered)
-        add("depth", ["0", "1", "20", "60", "120", "300"], 1.0 if kind in ("multi", "patch") else .5)
+        add("depth", ["0", "1", "20", "60", "120", "300"] + (["45", "90", "200", "600"] if kind == "multi" else []),
+            1.0 if kind in ("multi", "patch") else .5)
         add("start", ["epoch", "today", "month", "year", "now", "2023-11-05T01:02:03Z", "2024-01-01T05:30:00+05:30"], .4)
     if "segmentTimeline" in f:
         add("timeline", ["0", "1"], .5)
